@@ -274,6 +274,8 @@ def crosscheck(contract, recs, repo_src, verif_dir, witness=None, n=8, seed=0):
             continue
         res['compared'] += 1
         bad_clauses = {k: (v, nat['clauses'][k]) for k, v in clause_vals.items() if k in nat.get('clauses', {}) and v != nat['clauses'][k]}
+        if contract['meta'].get('set_order_dependent_result'):
+            bad_clauses = {}       # CPython's set order is a third, unrelated order: a difference is not an encoder error
         res['clauses_compared'] += len(clause_vals)
         if sym is _NO_RESULT and not clause_vals:
             res['compared'] -= 1
